@@ -116,7 +116,7 @@ func (e *Exec) pos(p token.Pos) string {
 	}
 	ps := e.P.fset.Position(p)
 	f := ps.Filename
-	f = strings.TrimPrefix(f, "/repo/")
+	f = strings.TrimPrefix(f, repoDir+"/")
 	if i := strings.Index(f, "/pkg/mod/"); i >= 0 {
 		f = f[i+9:]
 	}
@@ -174,7 +174,13 @@ func (e *Exec) stepInstr(th *Thread) {
 	savedPC := fr.pc
 	e.steps++
 	e.funcs[fr.fn]++
+	if ll := e.opts.LivelockSteps; ll > 0 && e.steps-e.progressAt > ll {
+		e.livelock(th, fr, ll)
+	}
 	if e.opts.MaxSteps > 0 && e.steps > e.opts.MaxSteps {
+		if e.steps-e.progressAt > e.opts.MaxSteps/2 {
+			e.livelock(th, fr, e.opts.MaxSteps/2)
+		}
 		panic(pathAbort{"bound", fmt.Sprintf("step bound %d exceeded in %s", e.opts.MaxSteps, fr.fn)})
 	}
 	ok := false
@@ -504,6 +510,7 @@ func (e *Exec) doReturn(th *Thread, fr *Frame, res Value) {
 	}
 	if th.top == nil {
 		th.done = true
+		e.progress()
 	}
 }
 
@@ -514,6 +521,7 @@ func (e *Exec) startPanic(th *Thread, p *goPanic) {
 	fr := th.top
 	if fr == nil {
 		th.done = true
+		e.progress()
 		return
 	}
 	fr.panicking = true
@@ -538,6 +546,7 @@ func (e *Exec) continueUnwind(th *Thread, fr *Frame) {
 	if fr.fn == nil || th.top == nil {
 		// uncaught
 		th.done = true
+		e.progress()
 		th.top = nil
 		panic(uncaughtPanic{p: p, th: th, stack: e.lastStack})
 	}
@@ -581,4 +590,27 @@ func (e *Exec) panicString(th *Thread, v Value) string {
 		}
 	}
 	return describe(v)
+}
+
+// progress notes a sign of progress of the path (see livelock).
+func (e *Exec) progress() {
+	if g := e.steps - e.progressAt; g > e.maxGap {
+		e.maxGap = g
+	}
+	e.progressAt = e.steps
+}
+
+// livelock reports a goroutine that keeps executing without ever blocking,
+// finishing or letting (virtual) time pass: progress is noted whenever a
+// goroutine blocks or ends, a goroutine is started, or the clock advances.
+// With the clock standing still no deadline can ever expire for such a loop,
+// so the call it sits in does not return.
+func (e *Exec) livelock(th *Thread, fr *Frame, n int) {
+	m := map[string]string{}
+	if e.feasible() == Sat {
+		m = e.model()
+	}
+	v := &Violation{Kind: "livelock", Label: "livelock", Model: m, Stack: e.stackSafe(),
+		Msg: fmt.Sprintf("goroutine %d (%s) executed %d instructions without blocking, finishing or time advancing: busy loop in %s", th.id, th.name, n, fr.fn)}
+	panic(pathAbort{"violation", v.Msg}.with(v))
 }
